@@ -366,6 +366,9 @@ func c06Replay(c *Ctx) {
 		c.Eval()
 		if err != nil {
 			c.Violation("exchange/failed", sfmt("request failed: %v", err), desc)
+			if strings.Contains(err.Error(), "Client.Timeout") {
+				client.Timeout = 3 * time.Second // reported; the rest of this process is not made to wait 90s per case
+			}
 			return
 		}
 		io.Copy(io.Discard, resp.Body)
